@@ -65,7 +65,9 @@ void Scheduler::yield_point(int kind) {
         }
     } else {
         uint64_t r = rng.next();
-        if ((r & ((1ULL << p_switch_log2) - 1)) == 0) target = pick_other();
+        // callbacks (random source, hash function) are rare and sit at semantically interesting points (between filling a buffer and
+        // handing it out, between draws): preempt there with probability 1/2; inside field multiplications with probability 2^-k
+        if (kind == 1 ? (r & 1) == 0 : (r & ((1ULL << p_switch_log2) - 1)) == 0) target = pick_other();
     }
     if (target < 0) return;
     taken.push_back({global_yield, target}); switches++;
